@@ -89,7 +89,7 @@ def check_cases(prop, tier, res, plan, assumptions, replay=None):
                 per_clause[clause] = per_clause.get(clause, 0) + 1
                 if per_clause[clause] > 2:
                     continue
-                fp = f"{fam}:{clause}:{case_key(c, pl['key_fields'])}"
+                fp = f"{fam}:{clause}" if clause in pl.get("class_clauses", ()) else f"{fam}:{clause}:{case_key(c, pl['key_fields'])}"
                 res.violation(fp, f"{prop} violated by the implementation on a concrete input ({fam}/{clause}): {v[:300]}",
                               {"kind": "case", "family": fam, "case": json.loads(c), "verdict": v, "rerun": how}, found=True)
             if others and not props:
